@@ -211,6 +211,16 @@ PARSE3 = '''
 //@   ensures[allocation_budget] (=> (isnil result.1) (<= allocs (+ (old allocs) 1)))
 '''
 
+APPENDERS = '''
+// ---- buffer helpers of Vector: they write only through b (C14 frame) ----
+
+//@ func mandatory(b, pre, v)
+//@   modifies b
+
+//@ func notMandatory(b, pre, v)
+//@   modifies b
+'''
+
 def vector_contract(v):
     T='CVSS'+v; r='cvss'+v
     n={'30':(8,14),'31':(8,14),'40':(11,21)}[v]
@@ -290,6 +300,7 @@ def gen(v):
         parts.append(SPLITCOUPLE)
         parts.append(PARSE3)
     if v != '20':
+        parts.append(APPENDERS)
         parts.append(vector_contract(v))
         parts.append(RATING)
     if v == '40':
